@@ -92,6 +92,11 @@ def r11_1(run):
                     continue
                 if rd.kind == 'iter' and 'self.unsaved' in src(rd.ast.iter):
                     continue    # pending values: __setattr__ wraps lists, mark_unsaved copies wrapped ones
+                if isinstance(dv, ast.Name):
+                    # a plain copy of the pending value (saved = value)
+                    rd2 = reaching_defs(g, rd, dv.id)
+                    if rd2 and all(r.kind == 'iter' and 'self.unsaved' in src(r.ast.iter) for r in rd2):
+                        continue
                 if _def_excluded(g, rd, cn, vname):
                     continue
                 all_ok = False
@@ -500,7 +505,9 @@ def r11_14(run):
         nm = c.args[0].id
         for n in g.nodes_containing(c):
             k += 1
-            gd = g.guarded_by(n, lambda t: isinstance(t, ast.Call) and dotted(t.func) == 'isinstance' and len(t.args) == 2 and dotted(t.args[0]) == nm and dotted(t.args[1]) == 'list')
+            # (the pending value under its own name, or under the name it was copied from: saved = value)
+            alias = set([nm]) | set(dotted(a.value) for a in walk_unit(sv) if isinstance(a, ast.Assign) and assign_to(a, nm) is not None and isinstance(a.value, ast.Name))
+            gd = g.guarded_by(n, lambda t: isinstance(t, ast.Call) and dotted(t.func) == 'isinstance' and len(t.args) == 2 and dotted(t.args[0]) in alias and dotted(t.args[1]) == 'list')
             fresh = any(lab == 'F' for _, lab in gd)
             run.ob('R11.14', sv, c, 'save() wraps only values that were not lists; a pending tracked list stays the same object', fresh, slot='save-keeps-list-identity',
                    message='save() builds a new _ListWrapper from %s also when the pending value already is a (tracked) list: the view then holds a copy, the list the '
